@@ -17,13 +17,13 @@ ASSUMPTIONS = ["the moment a commit is 'issued' is the consumer's call into Kafk
                "(stamped by a harness wrapper)", "afkak's convention: committed value = last processed offset, resume "
                "at the first message after it", "process death = every connection severed and every pending delayed "
                "call of the client dropped at that instant"]
-REACH_MIN = {"commits_issued": {"quick": 600, "thorough": 20000},
-             "commit_retries": {"quick": 10, "thorough": 300},
-             "processor_failures": {"quick": 40, "thorough": 1200},
-             "crash_points": {"quick": 600, "thorough": 20000},
-             "resumes_from_committed": {"quick": 400, "thorough": 15000},
-             "manual_commit_calls": {"quick": 60, "thorough": 2000},
-             "scenarios_fully_enumerated": {"quick": 15, "thorough": 500}}
+REACH_MIN = {"commits_issued": {"quick": 600, "thorough": 12000},
+             "commit_retries": {"quick": 10, "thorough": 200},
+             "processor_failures": {"quick": 40, "thorough": 800},
+             "crash_points": {"quick": 515, "thorough": 10300},
+             "resumes_from_committed": {"quick": 400, "thorough": 8000},
+             "manual_commit_calls": {"quick": 60, "thorough": 1200},
+             "scenarios_fully_enumerated": {"quick": 12, "thorough": 240}}
 
 
 def cases(tier, seed):
